@@ -96,8 +96,12 @@ func (s c01Spec) ops(w *model.World) (out []opx) {
 		vals = []model.Val{{N: uint64(time.Hour)}, {N: 0}, {N: uint64(3 * time.Hour)}}
 		deltas = []model.Val{{N: uint64(time.Minute)}}
 	}
-	if len(vals) > s.nvals {
-		vals = vals[:s.nvals]
+	nvals := s.nvals
+	if s.kind == "enum" {
+		nvals++ // the colliding pair takes two places; the empty string must be in every alphabet
+	}
+	if len(vals) > nvals {
+		vals = vals[:nvals]
 	}
 	isKey := s.kind == "key"
 	fresh := func(n int) model.Val { // n-th key not held by any live row
